@@ -3,6 +3,7 @@ package mdiff
 import (
 	"bytes"
 	"strings"
+	"time"
 
 	"github.com/creachadair/mds/slice"
 )
@@ -610,6 +611,48 @@ func VH_mdiff_Git() {
 			vAssert(string(vFormat(Unified, ps[0].Chunks, ps[0].FileInfo)) == string(text), "re-formatting the first git patch reproduces its unified text")
 		}
 	}
+}
+
+// VH_mdiff_Times: header timestamps in the default format survive a round trip
+// (instant, zone offset and the rendered text), for the unified reader and the
+// git wrapper reader.
+func VH_mdiff_Times() {
+	loc := time.UTC
+	switch vCase("zone") {
+	case 1:
+		loc = time.FixedZone("", -7*3600)
+	case 2:
+		loc = time.FixedZone("", 5*3600+1800)
+	}
+	var lt, rt time.Time
+	switch vCase("when") {
+	case 0:
+		lt = time.Date(2024, 2, 29, 23, 59, 58, 123456000, loc)
+		rt = time.Date(1999, 12, 31, 0, 0, 1, 0, loc)
+	case 1:
+		lt = time.Date(1970, 1, 1, 0, 0, 0, 0, loc)
+		rt = time.Date(2038, 1, 19, 3, 14, 8, 999999000, loc)
+	}
+	// a two-line change on both sides (no omitted count, no empty range)
+	d := New([]string{"a", "b", "c", "d"}, []string{"a", "x", "y", "d"})
+	fi := &FileInfo{Left: "old", Right: "new", LeftTime: lt, RightTime: rt}
+	text := vFormat(Unified, d.Chunks, fi)
+	p, err := ReadUnified(bytes.NewReader(text))
+	vCover("times-read")
+	vAssert(err == nil && p.FileInfo != nil, "ReadUnified accepts a header with timestamps")
+	if err != nil || p.FileInfo == nil {
+		return
+	}
+	vAssert(p.FileInfo.Left == "old" && p.FileInfo.Right == "new", "header file names survive next to timestamps")
+	vAssert(p.FileInfo.LeftTime.Equal(lt) && p.FileInfo.RightTime.Equal(rt), "header timestamps denote the same instants")
+	_, lo := p.FileInfo.LeftTime.Zone()
+	_, wo := lt.Zone()
+	vAssert(lo == wo, "header timestamps keep their zone offset")
+	again := vFormat(Unified, p.Chunks, p.FileInfo)
+	vAssert(string(again) == string(text), "re-formatting a parsed diff with timestamps reproduces the text")
+	ctx := vFormat(Context, d.Chunks, fi)
+	ctx2 := vFormat(Context, d.Chunks, p.FileInfo)
+	vAssert(string(ctx) == string(ctx2), "the context header renders the parsed timestamps identically")
 }
 
 // VH_mdiff_LongLine: a line longer than any internal buffer of the readers
